@@ -9,7 +9,7 @@ TECH = 'bounded symbolic execution of the real Python functions (symx proxy obje
 
 CLAIMED = {
     'C01': dict(
-        text='Every one of the 66 encoders and the text front end is executed symbolically for all register / immediate values within the stated widths; on every accepting path the word equals the specification field diagram (unsat query), a two-copy query shows the encoding injective, and the 129 register spellings are compared with the ABI table.',
+        text='Every one of the 66 encoders and the text front end is executed symbolically for all register / immediate values within the stated widths; on every accepting path the word equals the specification field diagram (unsat query), a two-copy query shows the encoding injective, and the 129 register spellings are compared with the ABI table; programs of 5-6 instructions mix alias constants and literal register spellings in every operand position (all registers symbolic) and every word must name the registers of its own line.',
         note='Trusted: spec/isa.py transcription of the ISA listings (validated against the repository test vectors), z3, the environment stubs listed in the evidence. Bound: operand bit-widths in evidence.bounds.',
         ref='6 C01'),
     'C02': dict(
@@ -21,8 +21,8 @@ CLAIMED = {
         note='Trusted: documented operand sets written out in DESIGN.md appendix A; z3; stubs.',
         ref='6 C06'),
     'C07': dict(
-        text='relocate_hi / relocate_lo / sign_extend executed symbolically for every value within the width: field ranges, recombination modulo 2^32, acceptance by the consuming encoders, and decoded lui/auipc + addi/lw/sw/jalr pairs from whole-pipeline templates with constant, label(+symbolic gap) and %position operands.',
-        note='Trusted: z3, stubs. Bound: value width in evidence; seven pair templates.',
+        text='relocate_hi / relocate_lo / sign_extend executed symbolically for every value within the width: field ranges, recombination modulo 2^32, acceptance by the consuming encoders, and lui/auipc + addi/lw/sw/jalr pairs from whole-pipeline templates with constant, label(+symbolic gap) and %position operands - decoded as words without -c, and *executed* by the reference semantics in both modes (any instruction length, every base register incl. sp), plus hi/lo layout templates around far calls and shrinking li.',
+        note='Trusted: z3, stubs. Bound: value width in evidence; the pair templates listed there.',
         ref='6 C07'),
 }
 
@@ -36,26 +36,26 @@ CLAIMED.update({
         note='Trusted: spec/sem.py, documented effects (DESIGN.md appendix B), z3, stubs. Bound: li value width, gap size in evidence.',
         ref='6 C05'),
     'C12': dict(
-        text='Off/on product with shared symbols: no accepting path of the uncompressed run is jointly satisfiable with a raising path of the compressed run, for all single-instruction programs (constants, aliases, literals in every operand position) and the layout templates.',
+        text='Off/on product with shared symbols: no accepting path of the uncompressed run is jointly satisfiable with a raising path of the compressed run, for all single-instruction programs (constants, aliases, literals in every operand position), the layout templates, and every pseudo-instruction with alias-constant operands. One known finding (F1: a jal exactly at the edge of its reach with an align behind it) is reported as KNOWN-FINDING and matched by cause, see DESIGN.md 9.3.',
         note='Trusted: z3, stubs. Bound: template programs; operand widths / gap sizes in evidence.',
         ref='6 C12'),
     'C20': dict(
-        text='For every path of the compressed run that leaves a literal-operand instruction at 32 bits, a quantifier-free eligibility predicate (exists legal non-hint h with expand(h) == word, Skolemised per RVC class) must be unsatisfiable; layout templates additionally compare total length and every label offset in both modes.',
+        text='For every path of the compressed run that leaves a literal-operand instruction at 32 bits, a quantifier-free eligibility predicate (exists legal non-hint h with expand(h) == word, Skolemised per RVC class) must be unsatisfiable; layout templates additionally compare total length and every label offset in both modes and demand 16 bits for every literal instruction line whose word is eligible; pseudo-instructions with alias-constant operands must assemble with -c.',
         note='Trusted: spec/sem.py expansion table, z3, stubs. Bound: as C04.',
         ref='6 C20'),
 })
 
 CLAIMED.update({
     'C03': dict(
-        text='Layout templates (curated cases, the adjacency and between families, symbolic alignments, and seeded random programs; branches, j, jal, call, tail, shrinking li, data, aligns, symbolic gaps up to 8 MiB) run through the whole real assemble() in both modes; on every accepting path each transfer is decoded by the reference semantics and must land on the label offset recomputed from the emitted chunks, and the reported label table must equal those offsets; two-call histories that re-use one labels dictionary must give the second program its own offsets.',
+        text='Layout templates (curated cases, the adjacency and between families, symbolic alignments, and seeded random programs; branches, j, jal, call, tail, shrinking li, data, aligns, symbolic gaps up to 8 MiB) run through the whole real assemble() in both modes; on every accepting path each transfer is decoded by the reference semantics and must land on the label offset recomputed from the emitted chunks, and the reported label table must equal those offsets; two-call histories that re-use one labels dictionary (same names, also in the opposite order) must give the second program its own offsets; two templates are passed as text with CRLF line ends.',
         note='Trusted: spec/sem.py decoding, the chunk list seen at resolve_blobs (wrapped from outside), z3, stubs. Bound: the template set (<= 12 lines each), gap sizes, li widths in evidence.',
         ref='6 C03'),
     'C08': dict(
-        text='Same templates with %offset, %position, bare labels, %hi/%lo(label) in instructions, li and dw/pack data: the decoded immediate / executed li result / data word equals the value computed from label offsets recomputed from the output, for all gap sizes and base addresses.',
+        text='Same templates with %offset, %position, bare labels, %hi/%lo(label) in instructions, li and dw/pack data: the decoded immediate / executed li result / data word equals the value computed from label offsets recomputed from the output, for all gap sizes and base addresses; also when the caller\'s labels dictionary already holds the same names from an earlier program.',
         note='Trusted: as C03.',
         ref='6 C08'),
     'C09': dict(
-        text='Kernel: the real Align.resolution_size for symbolic position and each alignment 1..64 and larger constants gives 0 <= pad < N with (pos+pad) % N == 0. Programs: on every path the chunk list is in source order, labels/constants contribute nothing, each item its documented size, each align its minimal zero padding, and the output is exactly the concatenation.',
+        text='Kernel: the real Align.resolution_size for symbolic position and each alignment 1..64 and larger constants gives 0 <= pad < N with (pos+pad) % N == 0. Programs: on every path the chunk list is in source order, labels/constants contribute nothing, each item its documented size, each align its minimal zero padding, and the output is exactly the concatenation (data items include native-size pack formats and CRLF text sources); the -o file after re-assembling a shorter program to the same path holds exactly the new bytes.',
         note='Trusted: documented sizes (docs/assembly_language.rst) as read by harness/layout.classify, z3, stubs. Bound: alignments and template set in evidence; symbolic non-power-of-two N inside whole programs only as constants.',
         ref='6 C09'),
 })
@@ -78,26 +78,26 @@ CLAIMED.update({
 
 CLAIMED.update({
     'C14': dict(
-        text='Include trees of depth 2 and 3 over a virtual file system: the included file may exist in any subset of four directories (symbolic bits), the working directory and the -i option are symbolic, an operand inside the files is symbolic. Every path\'s result (bytes, labels, constants) must equal the textually spliced program of a legitimately found candidate, for every working directory; include_bytes settings likewise.',
-        note='Trusted: z3, stubs (virtual os / open). Precedence between -i and the adjacent directory is left open, as in the property. Bound: the two trees.',
+        text='Include trees of depth 2 and 3 over a virtual file system: the included file may exist in any subset of four directories (symbolic bits), the working directory and the -i option are symbolic, an operand inside the files is symbolic. Every path\'s result (bytes, labels, constants) must equal the textually spliced program of a legitimately found candidate, for every working directory; include_bytes settings likewise. Two-call histories (another -i directory, an edited / shadowing / removed nested file, a first call that fails) compare the second call with a fresh process; reference-call scenarios compare a relative with an absolute -i directory, a directory given twice, an includer inside the first -i directory.',
+        note='Trusted: z3, stubs (virtual os / open). Precedence between -i and the adjacent directory is left open, as in the property. Bound: the three trees and the scenarios listed in the evidence.',
         ref='6 C14'),
     'C15': dict(
-        text='62 faulty lines (out-of-range operands with the value symbolic over everything outside the legal set, unknown registers, undefined labels/constants, malformed and non-integer expressions, error directive, missing include files) planted at several positions of a valid program, in an included file, in both modes, with the other operands symbolic: every refusing path must raise AssemblerError carrying exactly that file and line.',
+        text='About 80 faulty lines (out-of-range operands with the value symbolic over everything outside the legal set, unknown registers, undefined labels/constants, malformed and non-integer expressions, error directive, missing include files) planted at several positions of a valid program, in an included file, in both modes, with the other operands symbolic: every refusing path must raise AssemblerError carrying exactly that file and line (also in files that begin with blank lines); an error directive whose message is symbolic text; histories in which an included file is removed between two calls.',
         note='Trusted: z3, stubs. A program that is not refused carries no obligation. Bound: the fault list and placements in evidence.',
         ref='6 C15'),
     'C16': dict(
-        text='Frame condition (one inductive step): after every path of assemble() on symbolic programs (failing paths included) a structural fingerprint of everything reachable from the module is unchanged and contains no symbolic value. A changed module state counts as a violation only if a probe program then assembles differently than on a fresh import. Two-call products: the second call\'s result equals the result of the second program alone for all values of both programs\' symbols - with fresh dictionaries, with dictionaries passed to the first call only, with no dictionaries at all, with the same dictionary objects for both calls, and with one shared include_dirs list.',
-        note='Trusted: the fingerprint walks dicts, lists, partials, class dicts, function defaults and closures; z3; stubs. PYTHONHASHSEED independence is NOT claimed.',
+        text='Frame condition (one inductive step): after every path of assemble() on symbolic programs (failing paths included) a structural fingerprint of everything reachable from the module is unchanged and contains no symbolic value. A changed module state counts as a violation only if a probe program then assembles differently than on a fresh import. Two-call products: the second call\'s result equals the result of the second program alone for all values of both programs\' symbols - with fresh dictionaries, with dictionaries passed to the first call only, with no dictionaries at all, with the same dictionary objects for both calls, and with one shared include_dirs list; 21 file-system histories (edited / removed / shadowed / created files, another project with the same source text, a failing first call) compare the second call with the same call in a fresh process.',
+        note='Trusted: the fingerprint walks dicts, lists, partials, class dicts, function defaults and closures; z3; stubs. PYTHONHASHSEED: every path witness of the include exploration is replayed in four processes with different hash seeds (differential, not a proof).',
         ref='6 C16'),
 })
 
 CLAIMED.update({
     'C17': dict(
-        text='The real cli_main() runs in-process over a virtual file system that already holds old output, label and hex files, for combinations of programs (a symbolic operand decides which pass refuses them), -c (symbolic) and the option sets -o/-l/--hex-offset (symbolic value, and invalid spellings)/-i (one, two in non-alphabetical order, repeated)/--include-definitions/-v: on every failing path nothing was opened for writing; on success the -o file holds exactly the assembled byte object, the -l file one "name 0x%08x" line per label carrying that label\'s value, and bin2hex is called with (output, output.hex, offset) after the binary was written.',
+        text='The real cli_main() runs in-process over a virtual file system that already holds old output, label and hex files, for combinations of programs (a symbolic operand decides which pass refuses them), -c (symbolic) and the option sets -o/-l/--hex-offset (symbolic value, and invalid spellings)/-i (one, two in non-alphabetical order, repeated)/--include-definitions/-v: on every failing path nothing was opened for writing; on success the -o file holds exactly the assembled byte object, the -l file one "name 0x%08x" line per label carrying that label\'s value, and bin2hex is called with (output, output.hex, offset) after the binary was written; programs with includes must equal the hand-spliced program; the same command line run twice over a changed source (shorter, longer, equal, empty program) leaves exactly the second program in the files.',
         note='Trusted: z3, stubs (virtual os/open, recorder for intelhex.bin2hex, SystemExit observed in-process). The Intel HEX encoding is third-party and not part of the claim.',
         ref='6 C17'),
     'C18': dict(
-        text='The real dfu.cli_main() against a DfuSe device model: for each firmware length of the bound, opaque content (with a symbolic number of trailing zero bytes if the code asks), symbolic poll timeouts, symbolic busy schedules, symbolic initial error state and flash-size variant, every completed run leaves the modelled flash equal to the zero-padded image, erases before writing, never sends a request while the device is busy, sleeps every requested poll delay (solver query per status response) and stays inside the flash.',
+        text='The real dfu.cli_main() against a DfuSe device model: for each firmware length of the bound, opaque content (questions the code asks about it - trailing zeros, any / all / count / equality with a constant page - are answered by symbolic facts per stretch), symbolic poll timeouts, symbolic busy schedules, symbolic initial error state and flash-size variant, every completed run leaves the modelled flash equal to the zero-padded image, erases before writing, never sends a request while the device is busy, sleeps every requested poll delay (solver query per status response) and stays inside the flash.',
         note='Trusted: the device model (DESIGN.md 4.5), z3, stubs. Bound: firmware lengths are concrete per task (the padding loop concretises them); see evidence.bounds.',
         ref='6 C18'),
     'C19': dict(
